@@ -648,20 +648,75 @@ def replay_blk(v):
 # ===========================================================================
 
 def shards(tier):
-    return seq_shards(tier) + blk_shards(tier)
+    return seq_shards(tier) + blk_shards(tier) + [{'part': 'selfdup', 'w': w} for w in ((1, 2, 3) if tier == 'thorough' else (1, 2))]
+
+
+def _selfdup_cases(w):
+    """one block asked to drive the same ordinary wire from two of its own outputs: the second
+    attachment would give the wire two drivers and must raise, leaving the first driver in place"""
+    P = py4hw
+
+    def mk(f):
+        hw = HWSystem()
+        return hw, f
+    cases = {
+        'BitsLSBF': lambda hw: P.BitsLSBF(hw, 'dut', hw.wire('a', 2), [hw.wire('x'), hw._wires['x']]),
+        'BitsMSBF': lambda hw: P.BitsMSBF(hw, 'dut', hw.wire('a', 2), [hw.wire('x'), hw._wires['x']]),
+        'Demux': lambda hw: P.Demux(hw, 'dut', hw.wire('a', w), hw.wire('sel'), [hw.wire('x', w), hw._wires['x']]),
+        'Swap': lambda hw: P.Swap(hw, 'dut', hw.wire('a', w), hw.wire('b', w), hw.wire('s'), hw.wire('x', w), hw._wires['x']),
+        'Decoder': lambda hw: P.Decoder(hw, 'dut', hw.wire('a', 1), [hw.wire('x'), hw._wires['x']]),
+        'Abs': lambda hw: P.Abs(hw, 'dut', hw.wire('a', 1), hw.wire('x'), hw._wires['x']),
+        'Comparator': lambda hw: P.Comparator(hw, 'dut', hw.wire('a', w), hw.wire('b', w), hw.wire('x'), hw._wires['x'], hw.wire('lt')),
+        'CountLeadingZeros': lambda hw: P.CountLeadingZeros(hw, 'dut', hw.wire('a', 2), hw.wire('x', 1), hw._wires['x']) if w == 1 else None,
+        'ModuloCounter': lambda hw: P.ModuloCounter(hw, 'dut', 2, hw.wire('rs'), hw.wire('inc'), hw.wire('x'), hw._wires['x']),
+    }
+    return cases
+
+
+def run_selfdup(d):
+    res = {'part': 'selfdup', 'evaluations': 0, 'distinct_nontrivial': 0, 'configs': 0, 'violations': [], 'samples': [],
+           'distinct_outcomes': 2, 'vacuous_ok': True}
+    for name, f in _selfdup_cases(d['w']).items():
+        hw = HWSystem()
+        raised = None
+        try:
+            r = f(hw)
+            if r is None:
+                continue
+        except Exception as e:
+            raised = e
+        res['evaluations'] += 1
+        res['configs'] += 1
+        x = hw._wires.get('x')
+        if raised is None:
+            res['violations'].append({'sig': 'C11:selfdup:not-raised:%s' % name, 'shard': d, 'trace': [name],
+                                      'detail': {'block': name, 'note': 'two outputs of one block attached to the same wire without an error',
+                                                 'final_source': None if x is None or x.getSource() is None else x.getSource().name}})
+        else:
+            res['distinct_nontrivial'] += 1
+    res['samples'].append({'selfdup_blocks': sorted(_selfdup_cases(d['w']))})
+    return res
 
 
 def cost(d):
+    if d['part'] == 'selfdup':
+        return 1
     if d['part'] == 'seq':
         return 1000 * (d['D'] - (0 if d['root'] else d['L'])) + 10 * len(json.dumps(d['prefix']))
     return d.get('hi', 1) - d.get('lo', 0)
 
 
 def run_shard(d):
+    if d['part'] == 'selfdup':
+        return run_selfdup(d)
     return run_seq(d) if d['part'] == 'seq' else run_blk(d)
 
 
 def replay(v):
+    if v['shard'].get('part') == 'selfdup':
+        r = run_selfdup(v['shard'])
+        hit = [x for x in r['violations'] if x['sig'] == v['sig']]
+        return {'violates': bool(hit), 'detail': hit[:1]}
     if v['shard'].get('part') == 'seq':
         return replay_seq(v)
     return replay_blk(v)
